@@ -104,9 +104,16 @@ fn probe_sink<T: Repr + Send + Sync + 'static>(rec: &Arc<Rec>, pulls: bool, disp
                         // a conformant sink: it has received no terminal, and it sends its own once
                         let t = tb.lock().unwrap().clone();
                         if let Some(t) = t {
-                            rec.log(Obs::ProbeUp, Kind::Terminate, Val::none(), true);
-                            t(Message::Terminate);
-                            rec.log(Obs::ProbeUp, Kind::Terminate, Val::none(), false);
+                            // (a sink that pulls leaves with an Error, a passive one with Terminate)
+                            if pulls {
+                                rec.log(Obs::ProbeUp, Kind::Error, Val::none(), true);
+                                t(Message::Error(Arc::new(TErr)));
+                                rec.log(Obs::ProbeUp, Kind::Error, Val::none(), false);
+                            } else {
+                                rec.log(Obs::ProbeUp, Kind::Terminate, Val::none(), true);
+                                t(Message::Terminate);
+                                rec.log(Obs::ProbeUp, Kind::Terminate, Val::none(), false);
+                            }
                         }
                     }
                     pull(&tb);
